@@ -276,6 +276,9 @@ func randomBuilderCase(r *rand.Rand) []bOp {
 			ops = append(ops, bOp{Op: "bFilter", B: b, V: []string{}})
 		default:
 			key := curM[b] + " " + curP[b]
+			if curP[b] == "" {
+				key = curM[b] + " /" // "" and "/" both name the root resource
+			}
 			if taken[key] {
 				continue
 			}
